@@ -3,6 +3,7 @@ package pmdiff
 import (
 	"bytes"
 	"fmt"
+	"io"
 	"os"
 	"os/exec"
 	"path/filepath"
@@ -153,6 +154,26 @@ func TestC14GnuPatch(t *testing.T) {
 	}
 	dir := filepath.Join(h.OutDir, "patchwork")
 	defer os.RemoveAll(dir)
+	// Self-test of the external oracle: a rendering whose line numbers are
+	// shifted by one must be reported (wrong result, offset or reject).
+	{
+		probe := []FmtCase{{L: []string{"a", "b", "c", "d", "e", "f"}, R: []string{"a", "b", "X", "c", "d", "e", "f"}, N: -1}}
+		shifted := patchFmt{"Unified", "-u", func(w io.Writer, cs []*mdiff.Chunk, fi *mdiff.FileInfo) error {
+			var cc []*mdiff.Chunk
+			for _, c := range cs {
+				x := *c
+				x.LStart, x.LEnd, x.RStart, x.REnd = x.LStart+1, x.LEnd+1, x.RStart+1, x.REnd+1
+				cc = append(cc, &x)
+			}
+			return mdiff.Unified(w, cc, fi)
+		}}
+		if bad, out, err := runPatchBatch(dir, shifted, probe); err != nil || len(bad) != 1 {
+			t.Fatalf("VK-INFRA GNU patch oracle self-test failed: a shifted hunk was not reported (bad=%v err=%v output %q)", bad, err, out)
+		}
+		if bad, out, err := runPatchBatch(dir, patchFmts[0], probe); err != nil || len(bad) != 0 {
+			t.Fatalf("VK-INFRA GNU patch oracle self-test failed: a correct hunk was reported (bad=%v err=%v output %q)", bad, err, out)
+		}
+	}
 	tl := vk.NewTally()
 	const batch = 200
 	for lo := 0; lo < len(cases) && !h.Failed(); lo += batch {
